@@ -557,7 +557,8 @@ def apply_tamper(doc, t):
         if f not in b:
             applied = False
         elif f in ("length", "blob_num"):
-            b[f] = [str(b[f]), float(b[f]), None, [b[f]], bool(b[f]), "0x%x" % b[f], " %d" % b[f]][pos % 7]
+            b[f] = [str(b[f]), float(b[f]), None, [b[f]], bool(b[f]), "0x%x" % b[f], " %d" % b[f], b[f] + 0.5,
+                    b[f] + 0.25][pos % 9]
         else:
             b[f] = [None, 5, [b[f]], int(b[f][:8], 16), {"v": b[f]}][pos % 5]
     elif kind == "shift_iv_length":
